@@ -1,5 +1,14 @@
 """Single source of truth for MANIFEST.json (see tools_manifest.py)."""
-CHECKS = {}
+CHECKS = {
+    "C18": {
+        "text": "Bounded-free symbolic execution of the four limit helpers over unbounded reals; every path's result, range "
+                "membership and flag are proved equal to the clamp/outlier specification by z3 (QF_LRA, unsat = holds for "
+                "all reals); counterexamples are replayed on the unmodified module with exact Fractions.",
+        "note": "floats modelled as exact reals (no NaN/inf, no binary64 rounding of bound+-tolerance); min/max modelled as "
+                "If-terms; preconditions lower<=upper, tol>=0",
+        "technique": "symbolic execution of the Python source on z3 terms + SMT (QF_LRA) obligations per path, counterexample replay",
+    },
+}
 NOT_APPLICABLE = {}
 SEED_NOTES = ("Solver-based checking of the real code: every check symbolically executes the functions of /repo's "
               "current working tree (source read at run time) and discharges the property as SMT obligations per path; "
